@@ -90,6 +90,9 @@ func (u *uniq) ruleKey() string {
 // EventOpts tunes the event generator.
 type EventOpts struct {
 	Mode int // >= 0: force this st_mode on the first non-PARENT PATH record
+	// BadModes: some PATH records carry a mode that is not octal text (not something the kernel writes: only for
+	// checks whose domain is arbitrary text, not for the well-formed events of C09)
+	BadModes bool
 }
 
 // GenSyscallGroup builds a SYSCALL event with a random subset and order of companion records.
@@ -138,8 +141,13 @@ func GenSyscallGroup(r *mon.Rand, o EventOpts) Group {
 		if r.Chance(1, 8) {
 			name = "(null)"
 		}
-		add(fmt.Sprintf("type=PATH %s item=%d name=%s inode=%s dev=%02x:%02x mode=0%o ouid=%s ogid=%s rdev=%02x:%02x obj=%s:%s:%s:s0 %s=%s cap_fp=%s cap_fi=%s cap_fe=0 cap_fver=0",
-			hdr, i, name, u.num(), r.Intn(250), 0x21+i, mode, u.num(), u.num(), r.Intn(250), 0x31+i, u.word("ou"), u.word("or"), u.word("ot"), nt, nametype, u.word("fp"), u.word("fi")))
+		modeText := fmt.Sprintf("0%o", mode)
+		if o.BadModes && !modeUsed && r.Chance(1, 6) {
+			// a mode the coalescer cannot parse as octal: it warns and leaves the record as it is
+			modeText = mon.Pick(r, []string{"0100894", "file", "-1", "07777777777777777777777777", "0x1ff", "8"})
+		}
+		add(fmt.Sprintf("type=PATH %s item=%d name=%s inode=%s dev=%02x:%02x mode=%s ouid=%s ogid=%s rdev=%02x:%02x obj=%s:%s:%s:s0 %s=%s cap_fp=%s cap_fi=%s cap_fe=0 cap_fver=0",
+			hdr, i, name, u.num(), r.Intn(250), 0x21+i, modeText, u.num(), u.num(), r.Intn(250), 0x31+i, u.word("ou"), u.word("or"), u.word("ot"), nt, nametype, u.word("fp"), u.word("fi")))
 	}
 	if r.Chance(1, 3) {
 		n := r.Range(1, 4)
